@@ -2,13 +2,16 @@
 import connlane as L
 
 MC = {"quick": [("mc-time", "MCLdapConn", "MCConn_c12_quick.cfg", 600, 8),
-                ("mc-stall", "MCLdapConn", "MCConn_c12_stall.cfg", 600, 8)],
+                ("mc-stall", "MCLdapConn", "MCConn_c12_stall.cfg", 600, 8),
+                ("mc-timed-return", "MCLdapConn", "MCConn_c12_live.cfg", 600, 6)],
       "thorough": [("mc-time", "MCLdapConn", "MCConn_c12_thorough.cfg", 3000, 12),
-                   ("mc-stall", "MCLdapConn", "MCConn_c12_stall_thorough.cfg", 3000, 12)]}
+                   ("mc-stall", "MCLdapConn", "MCConn_c12_stall_thorough.cfg", 3000, 12),
+                   ("mc-timed-return", "MCLdapConn", "MCConn_c12_live.cfg", 600, 8)]}
 PROFILES = {"quick": [("timeouts", 250), ("burst", 150), ("stall", 250)],
             "thorough": [("timeouts", 4000), ("burst", 2000), ("mixed", 2000), ("stall", 4000)]}
 SCRIPTS = {"quick": ("GenConn_stall4.cfg", 8), "thorough": [("GenConn_len5.cfg", 10), ("GenConn_stall5.cfg", 20)]}
-RULE = ("model: explicit clock; TimeoutExact (nobody waits past its deadline, a timer fires only at its deadline), the timer of a "
+RULE = ("model: liveness TimedReturn (a timed wait always ends, also while the driver is blocked inside a send; weak fairness of the "
+        "callers, timers abstract); explicit clock; TimeoutExact (nobody waits past its deadline, a timer fires only at its deadline), the timer of a "
         "search restarts with every received item, timeouts do not change the driver; implementation: paused Tokio clock advanced "
         "1 ms at a time, timeouts of 1-4 ms, responses before/at/after the deadline, late replies always sent afterwards and later "
         "operations run on the same connection; every return is bound to the virtual time at which it happened; profile 'stall' and "
